@@ -22,6 +22,9 @@ class ToolError(Exception):
     pass
 
 
+FAILED_BINS = set()
+
+
 def log(*a):
     print(*a, file=sys.stderr, flush=True)
 
@@ -37,11 +40,15 @@ def build_harness():
             shutil.copy("/repo/Cargo.lock", lockfile)
         t0 = time.time()
         env = dict(os.environ, CARGO_NET_OFFLINE="true")
-        p = subprocess.run(["cargo", "build", "--release", "--offline"], cwd=HARNESS, env=env,
+        p = subprocess.run(["cargo", "build", "--release", "--offline", "--keep-going"], cwd=HARNESS, env=env,
                            stdout=subprocess.PIPE, stderr=subprocess.STDOUT, text=True)
         if p.returncode != 0:
-            log(p.stdout[-6000:])
-            raise ToolError("harness build failed (does /repo still compile with --cfg tantivy_verif?)")
+            # a driver that does not compile only breaks the checks that need it
+            FAILED_BINS.update(re.findall(r'could not compile `vh` \(bin "([^"]+)"\)', p.stdout))
+            if not FAILED_BINS or "could not compile `vh` (lib)" in p.stdout or "could not compile `tantivy" in p.stdout:
+                log(p.stdout[-6000:])
+                raise ToolError("harness build failed (does /repo still compile with --cfg tantivy_verif?)")
+            log(f"[build] these drivers did not compile: {sorted(FAILED_BINS)}")
         log(f"[build] harness built in {time.time()-t0:.1f}s")
     finally:
         fcntl.flock(lock, fcntl.LOCK_UN)
@@ -50,6 +57,8 @@ def build_harness():
 
 def run_bin(name, args, timeout=600, env=None, mem_gb=8, check=True, stdin=None):
     """Run a harness binary under a wall-clock and address-space limit."""
+    if name in FAILED_BINS:
+        raise ToolError(f"driver {name} did not compile")
     cmd = [os.path.join(BIN, name)] + [str(a) for a in args]
     pre = f"ulimit -v {int(mem_gb*1024*1024)}; exec " + " ".join("'" + c.replace("'", "'\\''") + "'" for c in cmd)
     e = dict(os.environ)
